@@ -5721,11 +5721,28 @@ int64_t ExpressionEvaluator::evaluate_function_call_impl(const ASTNode *node) {
                 receiver_var = interpreter_.find_variable(receiver_name);
             }
 
-            // Interface型のレシーバーの場合、implコンテキストを設定
-            if (receiver_var && receiver_var->type == TYPE_INTERFACE) {
-                std::string interface_name = receiver_var->interface_name;
-                std::string struct_type = receiver_var->struct_type_name;
-
+            // The impl block the method was declared in decides which impl
+            // statics it sees (qualified_name is "Interface::Type::method",
+            // set by handle_impl_declaration), whatever form the receiver
+            // has; an interface-typed receiver is the fallback.
+            std::string interface_name;
+            std::string struct_type;
+            if (func && !func->qualified_name.empty()) {
+                const std::string &qn = func->qualified_name;
+                size_t first_sep = qn.find("::");
+                size_t last_sep = qn.rfind("::");
+                if (first_sep != std::string::npos && last_sep > first_sep) {
+                    interface_name = qn.substr(0, first_sep);
+                    struct_type = qn.substr(first_sep + 2,
+                                            last_sep - first_sep - 2);
+                }
+            }
+            if (interface_name.empty() && receiver_var &&
+                receiver_var->type == TYPE_INTERFACE) {
+                interface_name = receiver_var->interface_name;
+                struct_type = receiver_var->struct_type_name;
+            }
+            if (!interface_name.empty()) {
                 if (!interface_name.empty() && !struct_type.empty()) {
                     interpreter_.enter_impl_context(interface_name,
                                                     struct_type);
